@@ -37,6 +37,16 @@ def sh(cmd, cwd, timeout=5400, env=None):
         return 124, "timeout", round(time.time() - t, 1)
 
 
+def cargo_part(cmd):
+    """the `cargo …` invocation inside a free-form command description"""
+    m = re.search(r"(cargo\s+(?:\+\S+\s+)?(?:test|run|nextest|check|build)\b[^()&;|\n]*)", cmd)
+    if not m:
+        return ""
+    c = m.group(1).strip()
+    c = re.sub(r"\s+(fails|passes|must|→|->).*$", "", c)
+    return c
+
+
 def harness_of(pid):
     try:
         sys.path.insert(0, os.path.join(VERIF, "tools"))
@@ -79,9 +89,7 @@ def main():
                 demo_files.append(rel)
                 os.makedirs(os.path.dirname(os.path.join(wt, rel)), exist_ok=True)
                 shutil.copy(os.path.join(d, f), os.path.join(wt, rel))
-        cmd = meta["demo_cmd"]
-        cmd = re.sub(r"CARGO_TARGET_DIR=\S+\s*", "", cmd)
-        cmd = re.sub(r"cd /tmp/wt_\w+\s*&&\s*", "", cmd)
+        cmd = cargo_part(meta["demo_cmd"])
         # 2. without patch
         rc, out, s = sh(cmd, wt, env=env)
         rec["ran"].append({"what": "demo without patch (must pass)", "cmd": cmd, "rc": rc, "s": s, "tail": out[-600:]})
@@ -100,9 +108,8 @@ def main():
             # 4. existing tests
             if not skip_tests:
                 for tc in meta.get("tests_run", []):
-                    tc2 = re.sub(r"CARGO_TARGET_DIR=\S+\s*", "", tc)
-                    tc2 = re.sub(r"cd /tmp/wt_\w+\s*&&\s*", "", tc2)
-                    if not tc2.strip().startswith("cargo"):
+                    tc2 = cargo_part(tc)
+                    if not tc2:
                         continue
                     # the demo file is a new test: exclude it from "existing tests" by removing it first
                     for rel in demo_files:
